@@ -23,7 +23,7 @@ type c13Op struct {
 }
 
 type c13Case struct {
-	Kind    string  `json:"kind"` // hist | oneshot | big
+	Kind    string  `json:"kind"`            // hist | oneshot | big
 	Start   string  `json:"start,omitempty"` // zero | reset | near32
 	Pattern string  `json:"pattern,omitempty"`
 	Ops     []c13Op `json:"ops,omitempty"`
